@@ -200,7 +200,7 @@ def check_case(case):
     if not okp:
         res.bad(f"C08/reparse/exception:{d2.key}", {**info, "exported": text2[:2000], "error": repr(d2)})
         return res
-    for what, detail in c01.vocab_diffs(dom, d2):
+    for what, detail in c01.vocab_diffs(dom, d2, ordered=False):
         res.bad(f"C08/vocabulary/{what}", {**info, "exported": text2[:1500], "detail": detail})
     if res.disc:
         return res
